@@ -163,6 +163,25 @@ theorem stepFields_file (P : Profile) (dm : DefMsg) (known : Bool) (fds : List F
         simp only [DecSt.setTs]
         constructor <;> (split <;> rfl)
 
+theorem stepFields_glob (P : Profile) (dm : DefMsg) (known : Bool) (fds : List FieldDef) (raws : List Bytes)
+    (m : Option Msg) (st : DecSt) (m' : Option Msg) (st' : DecSt)
+    (h : stepFields P dm known fds raws m st = .ok m' st') : st'.glob = st.glob := by
+  induction fds generalizing raws m st with
+  | nil => simp only [stepFields] at h; cases h; rfl
+  | cons fd fds ih =>
+    cases raws with
+    | nil => simp only [stepFields] at h; cases h; rfl
+    | cons raw raws =>
+      unfold stepFields at h
+      dsimp only at h
+      split at h
+      · cases h
+      · cases h
+      · have h1 := ih raws _ _ h
+        rw [h1]
+        simp only [DecSt.setTs]
+        split <;> rfl
+
 /-- one data record of a good block is accepted -/
 theorem stepItem_data_ok (P : Profile) (hwf : ProfileWF P = true) (c : Bool) (st : DecSt) (d : DefMsg) (parts : List Bytes)
     (hlook : st.defs.getD 0 none = some d) (hdev : d.dev = [])
@@ -405,7 +424,8 @@ theorem fileid_block_ok (P : Profile) (hwf : ProfileWF P = true) (arch : Endian)
       GoodBlock P (defOf arch m.num fs) [parts] ∧
       stepItem P st0 (.defn (defOf arch m.num fs) false) = .ok st1 ∧
       stepItem P st1 (.data 0 parts []) = .ok st2 ∧
-      st2.file = some { f0 with fileId := m } ∧ 0 < st2.defs.length := by
+      st2.file = some { f0 with fileId := m } ∧ 0 < st2.defs.length ∧ st2.glob = st0.glob ∧
+      st1.defs.getD 0 none = some (defOf arch m.num fs) := by
   have hknpm : pm.known = true := by
     unfold Profile.known at hkn; rw [hpm] at hkn; exact hkn
   obtain ⟨fs, parts, hbs, hmem, hfit, hsmall, hstep⟩ := message_roundtrip P hwf arch m bs pm hpm hknpm h hrt hinv
@@ -432,7 +452,7 @@ theorem fileid_block_ok (P : Profile) (hwf : ProfileWF P = true) (arch : Endian)
   refine ⟨fs, parts, st1, ?_⟩
   -- the data record
   have hdata : ∃ st2, stepItem P st1 (.data 0 parts []) = .ok st2 ∧ st2.file = some { f0 with fileId := m } ∧
-      0 < st2.defs.length := by
+      0 < st2.defs.length ∧ st2.glob = st0.glob := by
     simp only [stepItem]
     rw [stepData_pre]
     obtain ⟨pm2, hpm2, hpre⟩ := dataPre_known0 P hwf (st1.eat [u8 0]) (defOf arch m.num fs) hlook hkn
@@ -454,11 +474,14 @@ theorem fileid_block_ok (P : Profile) (hwf : ProfileWF P = true) (arch : Endian)
     simp only [hfx']
     unfold FileSt.add
     simp only [hfid, ↓reduceIte, hc0]
-    refine ⟨_, rfl, rfl, ?_⟩
-    show 0 < stx.defs.length
-    rw [hdx]; exact hd1
-  obtain ⟨st2, hs2, hf2, hd2⟩ := hdata
-  exact ⟨st2, hbs, hgood, hs1, hs2, hf2, hd2⟩
+    refine ⟨_, rfl, rfl, ?_, ?_⟩
+    · show 0 < stx.defs.length
+      rw [hdx]; exact hd1
+    · show stx.glob = st0.glob
+      rw [stepFields_glob P _ true _ parts _ (st1.eat [u8 0]) _ _ hsx, hst1]
+      rfl
+  obtain ⟨st2, hs2, hf2, hd2, hg2⟩ := hdata
+  exact ⟨st2, hbs, hgood, hs1, hs2, hf2, hd2, hg2, hlook⟩
 
 end Fit
 
@@ -580,7 +603,7 @@ theorem decode_accepts_encode (P : Profile) (hwf : ProfileWF P = true) (arch : E
               have hpm0' : P.msg? f.fileId.num = some pm0 := by rw [hdom.fidNum]; exact hpm0
               obtain ⟨hrt, hinv⟩ := hdom.fidRT pm0 hpm0'
               have hknf : P.known f.fileId.num = true := by rw [hdom.fidNum]; exact hdom.fidKnown
-              obtain ⟨fs, parts0, st1, st2, hb0, hgood0, hs1, hs2, hf2, hd2⟩ :=
+              obtain ⟨fs, parts0, st1, st2, hb0, hgood0, hs1, hs2, hf2, hd2, _, _⟩ :=
                 fileid_block_ok P hwf arch f.fileId b0 pm0 hpm0' hknf hdom.fidNum hfid hrt hinv
                   (recState0 P g f.hdr.proto f.hdr.profile (b0 ++ br).length)
                   { hdr := (afterHeader g f.hdr.proto f.hdr.profile (b0 ++ br).length).hdr, fileId := zeroFileId P }
